@@ -60,7 +60,19 @@ pub fn run(case: &Value, ctx: &Ctx) -> Outcome {
     let mut reference: Option<(Option<i32>, Vec<u8>)> = None;
     let mut runs = 0;
     for (vi, (label, bytes)) in variants.iter().enumerate() {
-        let path = cli::scratch(ctx, &format!("c12_{id:016x}_{vi}"), bytes);
+        // the file NAME must not matter: natural extensions, raw BCF named .bcf (as `bcftools view -Ou -o x.bcf` does),
+        // and for some scenarios a misleading extension
+        let ext = match (*label, id % 5) {
+            ("vcf", 0) => "bcf",
+            ("vcf", _) => "vcf",
+            (l, 1) if l.starts_with("vcf.gz") => "bcf",
+            (l, _) if l.starts_with("vcf.gz") => "vcf.gz",
+            ("bcf/raw", 2) => "vcf",
+            ("bcf/raw", _) => "bcf",
+            (_, 3) => "vcf.gz",
+            _ => "bcf",
+        };
+        let path = cli::scratch(ctx, &format!("c12_{id:016x}_{vi}.{ext}"), bytes);
         for rep in 0..2 {
             let via_stdin = (vi + rep) % 2 == 1;
             let t = threads[(vi * 2 + rep + (id % 6) as usize) % threads.len()];
